@@ -46,3 +46,59 @@ def expect_terms(ctx, got, expected: Dict[Tuple[int, ...], numpy.ndarray], what:
 
 def bytes_of(p) -> bytes:
     return numpy.ascontiguousarray(numpy.asarray(p).view(numpy.ndarray) if not hasattr(p, "names") else p.view(numpy.ndarray)).tobytes()
+
+
+# --------------------------------------------------------------------------------------------------------------------------
+# complex and other special coefficient content: term-wise oracles
+# --------------------------------------------------------------------------------------------------------------------------
+def zoo(shape=(2,), only=None):
+    """(label, polynomial) pairs over (q0, q1): complex128 / complex64 / float64 coefficient arrays with ordinary complex values,
+    tiny and purely imaginary parts, signed zeros, and (separately labelled) non-finite parts.  Fresh objects on every call."""
+    import numpoly
+
+    n = int(numpy.prod(shape)) if shape else 1
+    tiny = 3e-15
+    sets = {
+        "complex ordinary": [[1.5 + 2j, -0.25j], [2 - 1j, 3.0], [0.5j, -1 + 1j]],
+        "complex tiny imaginary": [[1.5 + 1e-20j, 2.0], [tiny * 1j, 2e-16j], [1 + 1e-15j, -2.0]],
+        "complex purely imaginary": [[1j, -2j], [0.5j, 3j], [-1j, 1e-300j]],
+        "complex signed zeros": [[complex(-0.0, -2.0), complex(0.0, -0.0)], [complex(-0.0, 0.0), 1j], [2.0, complex(-0.0, -0.0)]],
+        "complex non-finite part": [[complex(2, INF), complex(NAN, -5)], [1.0, complex(-INF, 1)], [1j, 2.0]],
+        "float inexact": [[0.1, 0.7], [0.1, 1 / 3.0], [0.7, 2.7]],
+    }
+    exps = [[0, 0], [1, 0], [2, 1]]
+    out = []
+    for label, cols in sets.items():
+        for dt in (("complex128", "complex64") if label.startswith("complex") else ("float64", "float32")):
+            if only is not None and only != "%s %s" % (label, dt):
+                continue
+            p = numpoly.ndpoly(exponents=exps, shape=shape, names=("q0", "q1"), dtype=dt)
+            with numpy.errstate(all="ignore"):
+                for key, col in zip(p.keys, cols):
+                    p.values[key] = numpy.resize(numpy.array(col, dtype=dt), n).reshape(shape)
+            out.append(("%s %s" % (label, dt), p))
+    return out
+
+
+def termwise(ctx, got, expected_fn, src, what: str) -> None:
+    """``got`` must hold, term by term, ``expected_fn(coefficient array of src)`` -- for operations that are linear in the
+    coefficients (sums along axes, means, differences, reshapes, negation, alignment): no arithmetic between terms takes place, so
+    the comparison is exact (nan-aware)."""
+    with numpy.errstate(all="ignore"):
+        want = {m: numpy.asarray(expected_fn(c)) for m, c in terms(src).items()}
+    expect_terms(ctx, got, want, what)
+
+
+def close_parts(a, b, rtol=1e-12) -> bool:
+    """Real and imaginary parts separately close (a part that is tiny next to the other part is still compared on its own)."""
+    a, b = numpy.asarray(a), numpy.asarray(b)
+    if a.shape != b.shape:
+        return False
+    with numpy.errstate(all="ignore"):
+        for pa, pb in ((numpy.real(a), numpy.real(b)), (numpy.imag(a), numpy.imag(b))):
+            fin = numpy.isfinite(pb)
+            if not numpy.array_equal(numpy.isnan(pa), numpy.isnan(pb)) or not numpy.array_equal(pa[~fin & ~numpy.isnan(pb)], pb[~fin & ~numpy.isnan(pb)]):
+                return False
+            if numpy.any(numpy.abs(pa[fin] - pb[fin]) > rtol * numpy.abs(pb[fin])):
+                return False
+    return True
